@@ -212,14 +212,15 @@ def run(ctx):
         if ok:
             b, o = cps[0]
             v = f3.objview(f3.arg(b, 1), b)
-            whole = is_call(peel(v, unwraps=False), r'Packet>::packet$') or (is_call(peel(v, unwraps=False), r'to_vec$') and is_call(peel(peel(v, unwraps=False)[2][0], unwraps=False), r'Packet>::packet$'))
+            # the payload is the object's bytes: packet(&obj), possibly copied (to_vec) and re-borrowed - obj_of passes through exactly those
+            whole = obj_of(v) == o and any(is_call(x, r'Packet>?::packet$') for x in walk(v)) and not any(is_call(x, r'Index|get$|split|payload$') for x in walk(v))
             ow = [b2 for b2, tt in f3.calls(r"::MutableIp\w+Packet::<'a>::owned$") if b2 in f3.dominators().get(b, ())]
             alloc = bool(ow) and alloc_is_min_plus_len(f3.objview(f3.arg(ow[-1], 0), ow[-1]), o, cls)
             ls = [b2 for b2, tt in f3.calls(r"::MutableIp\w+Packet::<'a>::%s$" % lenset) if b2 in f3.dominators().get(b, ()) or b in f3.dominators().get(b2, ())]
             lens = []
             for b2 in ls:
                 val = f3.objview(f3.arg(b2, 1), b2)
-                if any(isinstance(c, tuple) and c[0] == 'call' and re.search(r'Packet>::packet$', c[1]) and obj_of(c[2][0]) == o for c in walk(val)):
+                if any(isinstance(c, tuple) and c[0] == 'call' and re.search(r'Packet>?::packet$', c[1]) and obj_of(c[2][0]) == o for c in walk(val)):
                     vv = peel(val, casts=True)
                     if isinstance(vv, tuple) and vv[0] == 'field' and vv[2] == '0':
                         vv = vv[1]
